@@ -17,7 +17,9 @@ CHECKS = {
              "block_check tests exactly the (word,bit) block_insert sets and every 'false' is guarded "
              "by that test; insert/check select the same block; typed pairs hash identical bytes with "
              "seed 0; write/read/merge preserve bits under size guards; SALT, block geometry, block "
-             "index formula and the XXH64 constant fingerprint equal the specification; every typed insert reaches "
+             "index formula and the XXH64 constant fingerprint equal the specification; XXH64 consumes its input in the "
+             "reference schedule for every length 0..200 (32-byte stripes, 8-byte words, one 4-byte word, bytes; skeleton "
+             "execution); every typed insert reaches "
              "insert_hash on every path and insert_hash/check_hash have the same early exits (check answers true). Not decided: "
              "XXH64 value equality for all inputs, false-positive rate.",
         ref="DESIGN.md §3 C20"),
@@ -42,7 +44,7 @@ CHECKS["C18"] = dict(
          "fflush/fclose and their failure is folded into the returned status; in the three open paths the "
          "minimum-size, trailing-magic and footer-length guards (with error exits) dominate "
          "parquet_parse_file_metadata and build_schema runs only after the parse status was tested; abort "
-         "closes then removes. Not decided: that every proper prefix is rejected (depends on byte values).",
+         "closes then removes, depending only on {owns_file, file, path}. Not decided: that every proper prefix is rejected (depends on byte values).",
     ref="DESIGN.md §3 C18")
 CHECKS["C19"] = dict(
     technique="static analysis: NULL-test-before-use and status liveness on clang CFG with call-graph may-allocate summaries",
@@ -50,7 +52,8 @@ CHECKS["C19"] = dict(
          "is dereferenced/indexed/passed to a memory routine or to a callee that dereferences that parameter; "
          "the status of every callee that may allocate is consumed on every path (returned, tested, passed on, "
          "or stored and read before it dies); functions initialising a Thrift codec test its sticky error "
-         "before returning OK. 14 recorded known findings (dictionary encoders, page-index serializers). Not "
+         "before returning OK; the NULL branch of every allocation test reports a failure (no success return, no return of "
+         "further work); resources are released/handed over exactly once on every path. Not "
          "decided: success results when a NULL is tolerated rather than dereferenced; leak freedom on error "
          "paths beyond the ownership rules.",
     ref="DESIGN.md §3 C19")
@@ -73,7 +76,7 @@ CHECKS["C14"] = dict(
          "with the header crc, and the mismatch arm returns CRC_MISMATCH; the writer checksums the bytes it "
          "stores and enables CRC by default; the generator uses 0xEDB88320; abstract execution of the cursor "
          "arithmetic of crc32_slicing_by_8 shows for every length 0..80 that reads stay in bounds and every "
-         "input byte is read. Not decided: equality with zlib for all inputs, incremental composition, the "
+         "input byte is read; the header parser sets has_crc whenever field 4 is present. Not decided: equality with zlib for all inputs, incremental composition, the "
          "CRC's detection algebra.",
     ref="DESIGN.md §3 C14")
 
@@ -87,7 +90,8 @@ CHECKS["C16"] = dict(
          "bodies order by their own type; floating min/max updates NaN-guarded; memcpy into min/max storage "
          "bounded; every value reaches the update decision or invalidates the bounds; null count = "
          "num_values - num_non_null; min/max polarity: every store into a min (max) slot reads only min (max) sources "
-         "and (pointer,size) argument pairs name one bound, across builder, Thrift struct, reader view and page index. "
+         "and (pointer,size) argument pairs name one bound, across builder, Thrift struct, reader view and page index; a "
+         "value too long for the max storage is rejected, never stored as a truncated prefix. "
          "Not decided: that written min/max bound every input; byte-array ordering "
          "semantics of logical types.",
     ref="DESIGN.md §3 C16")
@@ -99,7 +103,7 @@ CHECKS["C17"] = dict(
          "accessors give the same levels for a flat leaf; one leaf predicate for counting and walking; "
          "schema_ensure_capacity grows the four parallel arrays together and dominates every append; accessors "
          "return the field of the same name; the reader's per-leaf arrays are written only by the recursive walk, which "
-         "every successful build_schema runs. Not decided: leaf order/levels for arbitrary trees under a rewritten "
+         "every successful build_schema runs; byte offsets into typed arrays are element-scaled. Not decided: leaf order/levels for arbitrary trees under a rewritten "
          "walk (a non-recursive rewrite makes the anchor vanish: exit 2, human review).",
     ref="DESIGN.md §3 C17")
 
@@ -112,7 +116,7 @@ CHECKS["C15"] = dict(
          "fallbacks) the cursor arithmetic is executed abstractly for every count 0..N (N = 70/140/280 by ISA): "
          "every load/store (masked forms by mask population) lies inside the contract extent of its buffer and "
          "output kernels write their whole output; match_copy kernels use block copies only as wide as the guarded "
-         "match distance. Not decided: output equality with the scalar definition; ARM "
+         "match distance; kernels that inspect a buffer's address are analysed per alignment class 0..63. Not decided: output equality with the scalar definition; ARM "
          "kernels (not in this build); adequacy of has_avx512f for the BW/VL encodings (observation in DESIGN.md).",
     ref="DESIGN.md §3 C15")
 
@@ -134,7 +138,7 @@ CHECKS["C03"] = dict(
          "footer readers reject short files, wrong trailing magic and oversized footer length; free(decoded_values) "
          "is unreachable while the buffer may be a mapped view, a view is stored only with its VIEW tag, and the "
          "published pointer is pointer arithmetic on file_reader->mmap_data on every definition (never a recycled "
-         "heap buffer). Not decided: row alignment of batches across columns.",
+         "heap buffer). (Skip/peek cursor changes in the mmap-only paths are decided under C02.) Not decided: row alignment of batches across columns.",
     ref="DESIGN.md §3 C03")
 
 CHECKS["C01"] = dict(
@@ -164,7 +168,8 @@ CHECKS["C06"] = dict(
          "the page type whose header member it consumes (DATA_PAGE_V2 refused); reader's and writer's "
          "bit_width_for_max equal the bit length for every level 0..32767; level widths derive from the column's max "
          "level, index width from the page byte; enum tags equal parquet.thrift; page bytes are interpreted by the "
-         "codec tag alone (only the UNCOMPRESSED arm copies raw bytes). Not decided: decoded values/levels "
+         "codec tag alone (only the UNCOMPRESSED arm copies raw bytes); no big-endian byte accumulation on the decoding "
+         "side. Not decided: decoded values/levels "
          "equal the stored ones; nested reconstruction.",
     ref="DESIGN.md §3 C06")
 CHECKS["C09"] = dict(
@@ -183,7 +188,8 @@ CHECKS["C11"] = dict(
          "of flush; PLAIN (all fixed-width types, BOOLEAN, FIXED_LEN) and BYTE_STREAM_SPLIT encoders/decoders "
          "produce/consume exactly count*width bytes with exact extents for counts 0..40 and refuse short inputs; no "
          "implicit 64->32-bit narrowing of a non-constant exists in the codec and file layers; DELTA_BYTE_ARRAY encoder "
-         "and decoder advance their predecessor reference on every iteration. Not decided: "
+         "and decoder advance their predecessor reference on every iteration; widths come from unsigned maxima; the hybrid "
+         "encoder writes pending literals before a run from every control state (0..7 pending x run 1..40). Not decided: "
          "decode(encode(v)) = v for DELTA_*, dictionary, RLE; streaming/one-shot agreement.",
     ref="DESIGN.md §3 C11")
 
@@ -196,7 +202,8 @@ CHECKS["C04"] = dict(
          "num_children loops also stop at the element count; recursion guarded; reader functions release what they "
          "acquire on every path; every index parameter is range-checked before subscripting; every error exit with "
          "an error object reports through CARQUET_SET_ERROR or a failing callee, message bounded; a buffer member set "
-         "to NULL has its capacity member reset before the capacity is read again. Not decided: "
+         "to NULL has its capacity member reset before the capacity is read again; per-leaf arrays are sized and filled "
+         "under one leaf predicate. Not decided: "
          "arithmetic adequacy of every guard, running-time bounds, statistics value sizes (noted in DESIGN.md).",
     ref="DESIGN.md §3 C04")
 CHECKS["C08"] = dict(
